@@ -566,7 +566,18 @@ func (s *S) authInit(afid *go9p.SrvFid, aname string) (*go9p.Qid, error) {
 	s.add(Entry{Kind: "authinit", Conn: afid.Fconn.Id, Key: key, Inc: inc, User: un, Uid: uid})
 	s.mu.Lock()
 	b := s.behav[key]
+	gate := s.gates[key]
+	if ent, ok := s.entered[key]; ok {
+		select {
+		case <-ent:
+		default:
+			close(ent)
+		}
+	}
 	s.mu.Unlock()
+	if b.Hold && gate != nil {
+		<-gate // an authentication set-up that takes its time
+	}
 	if b.Err != "" {
 		return nil, &go9p.Error{Err: b.Err, Errornum: b.Ecode}
 	}
